@@ -25,7 +25,7 @@ type c17Step struct {
 	Spell int `json:"path_spelling,omitempty"`
 }
 
-var c17Spellings = []string{"app", "./app", "app/", "app/../app", "./app/", "store/../app", "app/."}
+var c17Spellings = []string{"app", "./app", "app/", "app/../app", "./app/", "store/../app", "app/.", "app/app.go", "./app/app.go"}
 
 type c17Case struct {
 	Versions int       `json:"versions"`
@@ -44,6 +44,15 @@ func c17Source(k int, shape int, asPackage bool) string {
 		sb.WriteString("import (\n\t\"errors\"\n\t\"fmt\"\n)\n\n")
 	}
 	fmt.Fprintf(&sb, "type T struct {\n\tN int\n\tLabel string\n}\n\ntype H struct {\n\tF func() string\n\tG func(int) string\n\tP func(int) string\n}\n\ntype Namer interface {\n\tM() string\n}\n\n")
+	// a function literal inside a function, at the same line and column in every version; an initialiser that calls
+	// a function declared below it
+	fmt.Fprintf(&sb, "func viaLit(n int) string {\n\tf := func(a int) string {\n\t\treturn \"lit@v%d:\" + fmt.Sprint(a)\n\t}\n\treturn f(n)\n}\n\n", k)
+	if asPackage {
+		fmt.Fprintf(&sb, "var early = earlyTag()\n\nfunc earlyTag() string {\n\treturn \"early@v%d\"\n}\n\n", k)
+	} else {
+		// (top-level statements given to Eval run in the order written)
+		fmt.Fprintf(&sb, "func earlyTag() string {\n\treturn \"early@v%d\"\n}\n\nvar early = earlyTag()\n\n", k)
+	}
 	// state
 	sb.WriteString("var keep int\nvar loads int\nvar saved func() string\nvar savedG func(int) string\nvar obj *T\nvar bound func() string\nvar boundP func(int) string\nvar holder *H\nvar list []func() string\nvar anyKeep any\nvar namer Namer\nvar lastErr error\nvar hits, misses int\nvar cache map[string]int\nvar queue []int\nvar fa, fb float64\n")
 	fmt.Fprintf(&sb, "var reset = %d\nvar resetS = \"init-v%d\"\n", 100*k, k)
@@ -90,7 +99,7 @@ func c17Source(k int, shape int, asPackage bool) string {
 	sb.WriteString("func Mid() string {\n\tbefore := keep\n\tr0 := reset\n\treloadnow()\n\tkeep++\n\treset += 5\n\treturn fmt.Sprint(before, keep, r0 > 0, reset) + \" \" + f1() + \" \" + resetS + fmt.Sprint(filler())\n}\n\n")
 	sb.WriteString("func Tick() {\n\tkeep++\n\treset++\n\tresetS += \"+\"\n" + c17StoreTick(asPackage) + "\tzi++\n\tzb = true\n\tzs += \"t\"\n\tzf += 0.5\n\tanyKeep = keep\n\thits++\n\tmisses += 2\n\tfa += 0.5\n\tfb += fa\n\tif cache == nil {\n\t\tcache = map[string]int{}\n\t}\n\tcache[\"k\"] = keep\n\tif keep%2 == 0 {\n\t\tdelete(cache, \"k\")\n\t}\n\tqueue = append(queue, keep)\n\tif keep%3 == 0 {\n\t\tqueue = queue[:0]\n\t}\n\tif obj != nil {\n\t\tobj.N += 10\n\t}\n}\n\n")
 	sb.WriteString("func Capture() {\n\tsaved = f0\n\tsavedG = g\n\tobj = &T{N: keep, Label: \"L\"}\n\tbound = obj.M\n\tboundP = obj.P\n\tholder = &H{F: f1, G: g, P: obj.P}\n\tlist = append(list, f1)\n\thook = f1\n\tnamer = obj\n\tlastErr = errors.New(\"e\" + fmt.Sprint(keep))\n}\n\n")
-	sb.WriteString("func Report() string {\n\ts := f0() + \" \" + f1() + \" \" + g(2)\n\tif saved != nil {\n\t\ts += \" saved=\" + saved() + \" savedG=\" + savedG(3) + \" bound=\" + bound() + \" holder=\" + holder.F() + holder.G(4) + \" obj=\" + obj.M() + \" boundP=\" + boundP(5) + \" holderP=\" + holder.P(6) + \" namer=\" + namer.M() + \" err=\" + lastErr.Error()\n\t\tfor _, f := range list {\n\t\t\ts += \" l=\" + f()\n\t\t}\n\t} else {\n\t\ts += \" saved=nil\"\n\t}\n\tif obj != nil && HasExtra {\n\t\ts += \" extra=\" + obj.Extra()\n\t}\n\tif anyKeep != nil {\n\t\ts += \" any=\" + fmt.Sprint(anyKeep)\n\t} else {\n\t\ts += \" any=nil\"\n\t}\n" + c17StoreReport(asPackage) + "\ts += \" hook=\" + hook()\n\ts += \" local=\" + fmt.Sprint(localSum(keep))\n\ts += \" hm=\" + fmt.Sprint(hits, misses, fa, fb) + \" cache=\" + fmt.Sprint(cache == nil, len(cache)) + \" queue=\" + fmt.Sprint(queue == nil, len(queue))\n\ts += \" bump=\" + fmt.Sprint(Bump()) + \" z=\" + fmt.Sprint(zi) + fmt.Sprint(zb) + zs + fmt.Sprint(zf)\n\treturn s + \" keep=\" + fmt.Sprint(keep) + \" reset=\" + fmt.Sprint(reset) + \" resetS=\" + resetS + \" loads=\" + fmt.Sprint(loads)\n}\n")
+	sb.WriteString("func Report() string {\n\ts := f0() + \" \" + f1() + \" \" + g(2)\n\tif saved != nil {\n\t\ts += \" saved=\" + saved() + \" savedG=\" + savedG(3) + \" bound=\" + bound() + \" holder=\" + holder.F() + holder.G(4) + \" obj=\" + obj.M() + \" boundP=\" + boundP(5) + \" holderP=\" + holder.P(6) + \" namer=\" + namer.M() + \" err=\" + lastErr.Error()\n\t\tfor _, f := range list {\n\t\t\ts += \" l=\" + f()\n\t\t}\n\t} else {\n\t\ts += \" saved=nil\"\n\t}\n\tif obj != nil && HasExtra {\n\t\ts += \" extra=\" + obj.Extra()\n\t}\n\tif anyKeep != nil {\n\t\ts += \" any=\" + fmt.Sprint(anyKeep)\n\t} else {\n\t\ts += \" any=nil\"\n\t}\n" + c17StoreReport(asPackage) + "\ts += \" hook=\" + hook()\n\ts += \" local=\" + fmt.Sprint(localSum(keep)) + \" \" + viaLit(2) + \" \" + early\n\ts += \" hm=\" + fmt.Sprint(hits, misses, fa, fb) + \" cache=\" + fmt.Sprint(cache == nil, len(cache)) + \" queue=\" + fmt.Sprint(queue == nil, len(queue))\n\ts += \" bump=\" + fmt.Sprint(Bump()) + \" z=\" + fmt.Sprint(zi) + fmt.Sprint(zb) + zs + fmt.Sprint(zf)\n\treturn s + \" keep=\" + fmt.Sprint(keep) + \" reset=\" + fmt.Sprint(reset) + \" resetS=\" + resetS + \" loads=\" + fmt.Sprint(loads)\n}\n")
 	return sb.String()
 }
 
@@ -175,7 +184,7 @@ func (m *c17Model) report() string {
 		s += fmt.Sprintf(" store=%d %d", 100+m.zticks, m.ticks)
 	}
 	s += " hook=" + m.hook()
-	s += fmt.Sprintf(" local=%d", m.keep*100+m.ver*10+2)
+	s += fmt.Sprintf(" local=%d lit@v%d:2 early@v%d", m.keep*100+m.ver*10+2, m.ver, m.ver)
 	s += fmt.Sprintf(" hm=%d %d %v %v cache=%v %d queue=%v %d", m.ticks, 2*m.ticks, float64(m.ticks)/2, m.fb, m.ticks == 0, m.cacheLen, m.ticks == 0, m.queueLen)
 	s += fmt.Sprintf(" bump=768 z=%d%v%s%v", m.zticks, m.zticks > 0, strings.Repeat("t", m.zticks), float64(m.zticks)/2)
 	return s + fmt.Sprintf(" keep=%d reset=%d resetS=%s loads=%d", m.keep, m.reset, m.resetS, m.loads)
@@ -346,7 +355,7 @@ func c17Run(c c17Case) (what string, trace []string) {
 }
 
 func runC17(r *core.Run) {
-	r.SetRule("histories of 5-30 steps (load version k of 2-6, reload the same version, load a version from a host function while a script function is running, load a version that fails while its top-level code runs, tick, capture, report; the host also calls a variable that holds a function by name) over a generated package whose function and method bodies return a version tag; captured before reloads: a function value in a no-initialiser global, function values in struct fields and in a slice, a bound method value, an instance; state: no-initialiser int and counters, two ints and two floats declared in one var statement, a map and a slice that exist but are empty at some reloads (all kept), the host spelling the package directory in several equivalent ways, int and string variables with initialisers (re-initialised), variables whose initialiser spells the zero value (re-initialised), a function whose locals shadow package variables and are updated with += / ++ ; versions also differ in the arity of an internal helper, in added methods and in the fields of a struct type declared inside a function; every version brings 130 literals of its own (the VM's tables grow on its first load); the package imports a package whose source never changes (its initialised variable starts over with every load, its other variable is kept); through Load of a package and through repeated Eval of the definitions. non-trivial = at least 2 loads and 1 report after a capture; distinct by history")
+	r.SetRule("histories of 5-30 steps (load version k of 2-6, reload the same version, load a version from a host function while a script function is running, load a version that fails while its top-level code runs, tick, capture, report; the host also calls a variable that holds a function by name) over a generated package whose function and method bodies return a version tag; captured before reloads: a function value in a no-initialiser global, function values in struct fields and in a slice, a bound method value, an instance; state: no-initialiser int and counters, two ints and two floats declared in one var statement, a map and a slice that exist but are empty at some reloads (all kept), the host spelling the package directory in several equivalent ways, int and string variables with initialisers (re-initialised), variables whose initialiser spells the zero value (re-initialised), a function whose locals shadow package variables and are updated with += / ++ ; versions also differ in the arity of an internal helper, in added methods, in the fields of a struct type declared inside a function and in the body of a function literal that keeps its source position; the package is also loaded by the name of its file; every version brings 130 literals of its own (the VM's tables grow on its first load); the package imports a package whose source never changes (its initialised variable starts over with every load, its other variable is kept); through Load of a package and through repeated Eval of the definitions. non-trivial = at least 2 loads and 1 report after a capture; distinct by history")
 	r.Assume("the model encodes the contract stated in the property: after loading version k every function and method - also through references captured earlier - runs version k's body; variables without initialiser keep their values, variables with initialiser are reset, instances keep their fields")
 	n := r.N(3000, 120000)
 	core.Parallel((n+49)/50, func(chunk int) {
